@@ -575,3 +575,93 @@ func TestC19Parallel(t *testing.T) {
 		RecordCase("C19", fmt.Sprintf("parallel creation: %d creators x %d rounds indexes=%v", creators, rounds, withIndexes), true, "concurrent-trigger-creation")
 	})
 }
+
+// TestC19ParallelStores: one trigger, several writers that commit into DIFFERENT blocks at the same
+// moment (their commits run in parallel). Every writer stores unique values into rows of its own
+// block and deletes some of them; at quiescence the trigger must have been told every committed
+// store exactly once with the stored value, and every committed deletion exactly once.
+func TestC19ParallelStores(t *testing.T) {
+	rapid.Check(t, func(t *rapid.T) {
+		blocks := rapid.IntRange(2, 4).Draw(t, "blocks")
+		stores := rapid.IntRange(200, 1500).Draw(t, "stores-per-writer")
+		c := column.NewCollection(column.Options{Capacity: 1024, Vacuum: 24 * 3600 * 1e9})
+		defer c.Close()
+		c.CreateColumn("v", column.ForInt())
+		c.CreateColumn("s", column.ForString())
+		c.Query(func(txn *column.Txn) error {
+			for i := 0; i < blocks*16384-50; i++ {
+				txn.Insert(func(r column.Row) error { return nil })
+			}
+			return nil
+		})
+		type ev struct {
+			off uint32
+			v   int
+			del bool
+		}
+		var mu sync.Mutex
+		got := map[ev]int{}
+		if err := c.CreateTrigger("watch", "v", func(r column.Reader) {
+			e := ev{off: r.Index(), del: r.IsDelete()}
+			if r.IsUpsert() {
+				e.v = r.Int()
+			}
+			mu.Lock()
+			got[e]++
+			mu.Unlock()
+		}); err != nil {
+			t.Fatal(err)
+		}
+		want := make([]map[ev]int, blocks)
+		var wg sync.WaitGroup
+		for w := 0; w < blocks; w++ {
+			want[w] = map[ev]int{}
+			wg.Add(1)
+			go func(w int) {
+				defer wg.Done()
+				defer func() { recover() }()
+				base := uint32(w) << 14
+				for i := 0; i < stores; i++ {
+					off := base + uint32(i%300)
+					val := (w+1)*10_000_000 + i
+					switch {
+					case i%50 == 49:
+						// a row of its own, stored and deleted again (one transaction each)
+						row := base + 1000 + uint32(i)
+						c.QueryAt(row, func(r column.Row) error { r.SetInt("v", val); return nil })
+						want[w][ev{off: row, v: val}]++
+						c.DeleteAt(row)
+						want[w][ev{off: row, del: true}]++
+					case i%7 == 0:
+						c.QueryAt(off, func(r column.Row) error { r.MergeInt("v", val); r.SetString("s", "x"); return nil })
+						// the merged value is reported: rows are only touched by their owner, so it is known
+						cur := 0
+						c.QueryAt(off, func(r column.Row) error { cur, _ = r.Int("v"); return nil })
+						want[w][ev{off: off, v: cur}]++
+					default:
+						c.QueryAt(off, func(r column.Row) error { r.SetInt("v", val); return nil })
+						want[w][ev{off: off, v: val}]++
+					}
+				}
+			}(w)
+		}
+		wg.Wait()
+		all := map[ev]int{}
+		for _, m := range want {
+			for e, n := range m {
+				all[e] += n
+			}
+		}
+		for e, n := range all {
+			if got[e] != n {
+				t.Fatalf("C19 violated (%d writers committing into different blocks at once): the trigger was called %d time(s) for %d committed %s of row %d (value %d)", blocks, got[e], n, map[bool]string{true: "deletion(s)", false: "store(s)"}[e.del], e.off, e.v)
+			}
+		}
+		for e, n := range got {
+			if all[e] == 0 {
+				t.Fatalf("C19 violated (%d writers committing into different blocks at once): the trigger was called %d time(s) with row %d value %d delete=%v, which no transaction committed", blocks, n, e.off, e.v, e.del)
+			}
+		}
+		RecordCase("C19", fmt.Sprintf("parallel stores: %d writers x %d stores", blocks, stores), true, "one-trigger-many-blocks")
+	})
+}
